@@ -51,8 +51,8 @@ PROPS = {
             "probes": ["probe:relaxed_inexact", "cutset_nodes_checked", "completions_checked_for_coverage", "probe:frontier_cutset_spanning_>=2_layers", "fault:reuse_after_abort"],
             "rule": RULE_DD, "real": REAL_DD, "stub": STUB_DD},
     "C09": {"level": "exploration", "arms": [A("par-large-cache", 2000, 100000), A("seq-large-cache", 8000, 300000), A("par-cache", 40000, 2000000), A("seq-cache", 40000, 1500000), A("par-free", 10000, 500000), A("seq-depthfree", 10000, 400000), A("dd-history", 20000, 800000, boost=3), A("dd-history-narrow", 20000, 800000, boost=3), A("dd-history-depthfree", 8000, 300000, boost=3)],
-            "probes": ["probe:cache_hit", "probe:pruned_by_cache_at_pop", "probe:read_threshold_written_by_peer", "cache_clear_layers", "strategy:cache_biased", "thresholds_checked", "probe:published_threshold_equals_largest_sound_one"],
-            "rule": RULE_SOLVER + "; instances with heavy re-convergence (1-3 base states per layer); no lossy-cache fault in the cache arms (the real cache must be the one answering). Threshold level (dd-history arms): every threshold a completed compilation publishes to the cache is compared with the LARGEST SOUND threshold of that (state, depth), computed by a backward DP over the reference tables from the incumbent and the sub-problems handed out by the cut-set"},
+            "probes": ["probe:cache_hit", "probe:pruned_by_cache_at_pop", "probe:read_threshold_written_by_peer", "cache_clear_layers", "strategy:cache_biased", "thresholds_checked", "probe:published_threshold_equals_largest_sound_one", "live_thresholds_checked"],
+            "rule": RULE_SOLVER + "; instances with heavy re-convergence (1-3 base states per layer); no lossy-cache fault in the cache arms (the real cache must be the one answering). Threshold level (dd-history arms): every threshold a completed compilation publishes to the cache is compared with the LARGEST SOUND threshold of that (state, depth), computed by a backward DP over the reference tables from the incumbent and the sub-problems handed out by the cut-set. Solver arms with a live cache (no dominance rule, no long arcs): every threshold published during the run is compared at the end with the largest threshold that can be sound at all (final optimum as incumbent, every sub-problem ever pushed on the fringe as covered)"},
     "C10": {"level": "exploration", "arms": [A("dom-enum", 1195740, 10761678, enum_len={"quick": 4, "thorough": 5}, samples=1), A("dom-history", 40000, 2000000), A("seq-dom", 30000, 1200000), A("par-dom", 30000, 1200000)],
             "probes": ["probe:dominated_verdict", "probe:equal_state_re_presented", "probe:recorded_entry_dropped_by_later_dominating_state", "threshold_soundness_probes", "comparator_pairs_checked", "probe:dominance_pruned_node"],
             "rule": "checker semantics: generated histories of is_dominated_or_insert / clear_layer over small alphabets (<= 2 keys + keyless, <= 3 coordinates in 0..2, values 0..3, 2 depths) compared step by step with a reference Pareto front; threshold soundness re-checked against fresh real checkers; distinct = distinct (use_value, history). Solver level: " + RULE_SOLVER},
